@@ -41,6 +41,35 @@ pub fn unhex(s: &str) -> Option<Vec<u8>> {
     Some(v)
 }
 
+/// Where the two sides of a buffer-to-buffer call live.  A caller's input and output are often two halves of one
+/// allocation (`split_at_mut`), i.e. *adjacent*: the end of one is the start of the other.  Which of the three layouts
+/// is used is a function of the call's data, so every stream of cases exercises all of them and a case replays exactly:
+/// two separate allocations, input directly in front of the output, output directly in front of the input.
+pub fn with_b2b<R>(b: &[u8], o: &mut [u8], f: impl FnOnce(&[u8], &mut [u8]) -> R) -> R {
+    let layout = (b.len() + o.len() + b.first().copied().unwrap_or(0) as usize + b.last().copied().unwrap_or(0) as usize) % 3;
+    match layout {
+        0 => f(b, o),
+        1 => {
+            let mut arena = Vec::with_capacity(b.len() + o.len());
+            arena.extend_from_slice(b);
+            arena.extend_from_slice(o);
+            let (i, out) = arena.split_at_mut(b.len());
+            let r = f(i, out);
+            o.copy_from_slice(out);
+            r
+        }
+        _ => {
+            let mut arena = Vec::with_capacity(b.len() + o.len());
+            arena.extend_from_slice(o);
+            arena.extend_from_slice(b);
+            let (out, i) = arena.split_at_mut(o.len());
+            let r = f(i, out);
+            o.copy_from_slice(out);
+            r
+        }
+    }
+}
+
 pub enum Step {
     Line(String),
     Push(Box<dyn Obj>, String),
@@ -399,7 +428,7 @@ macro_rules! impl_mode_ops {
             }
             2 => {
                 let mut out = vec![0xa5u8; bs * ($m.len() / bs + 1)];
-                BlockModeEncrypt::encrypt_padded_b2b::<Pkcs7>($s, $m, &mut out).ok().map(|o| o.to_vec())
+                with_b2b($m, &mut out, |i, o| BlockModeEncrypt::encrypt_padded_b2b::<Pkcs7>($s, i, o).ok().map(|o| o.to_vec()))
             }
             _ => Some(BlockModeEncrypt::encrypt_padded_vec::<Pkcs7>($s, $m)),
         }
@@ -412,7 +441,7 @@ macro_rules! impl_mode_ops {
             }
             2 => {
                 let mut out = vec![0xa5u8; $m.len()];
-                BlockModeDecrypt::decrypt_padded_b2b::<Pkcs7>($s, $m, &mut out).ok().map(|o| o.to_vec())
+                with_b2b($m, &mut out, |i, o| BlockModeDecrypt::decrypt_padded_b2b::<Pkcs7>($s, i, o).ok().map(|o| o.to_vec()))
             }
             _ => BlockModeDecrypt::decrypt_padded_vec::<Pkcs7>($s, $m).ok(),
         }
@@ -593,7 +622,7 @@ impl<M: ModeOps> Obj for BlockObj<M> {
                 if b.len() != M::MBS || o.len() != M::MBS {
                     return bad();
                 }
-                self.m.block_b2b(&b, &mut o);
+                with_b2b(&b, &mut o, |b, o| self.m.block_b2b(b, o));
                 line(format!("out {}", hex(&o)))
             }
             ["blocks", x] => {
@@ -617,7 +646,7 @@ impl<M: ModeOps> Obj for BlockObj<M> {
                 if b.len() % M::MBS != 0 || o.len() % M::MBS != 0 {
                     return bad();
                 }
-                if self.m.blocks_b2b(&b, &mut o) {
+                if with_b2b(&b, &mut o, |b, o| self.m.blocks_b2b(b, o)) {
                     line(format!("out {}", hex(&o)))
                 } else {
                     line(format!("err {}", hex(&o)))
@@ -636,7 +665,8 @@ impl<M: ModeOps> Obj for BlockObj<M> {
             }
             ["oneshotb", x, g] => {
                 let (Some(b), Some(mut o)) = (unhex(x), unhex(g)) else { return bad() };
-                match self.m.clone().oneshot_b2b(&b, &mut o) {
+                let m2 = self.m.clone();
+                match with_b2b(&b, &mut o, |b, o| m2.oneshot_b2b(b, o)) {
                     Some(true) => line(format!("out {}", hex(&o))),
                     Some(false) => line(format!("err {}", hex(&o))),
                     None => bad(),
@@ -955,7 +985,7 @@ where
             }
             ["applyb", x, g] => {
                 let (Some(b), Some(mut o)) = (unhex(x), unhex(g)) else { return bad() };
-                match self.w.apply_keystream_b2b(&b, &mut o) {
+                match with_b2b(&b, &mut o, |b, o| self.w.apply_keystream_b2b(b, o)) {
                     Ok(()) => line(format!("out {}", hex(&o))),
                     Err(_) => line(format!("err {}", hex(&o))),
                 }
@@ -1119,8 +1149,7 @@ impl<T: CoreKind> Obj for CoreObj<T> {
                 let fresh = <T as KeyIvInit>::new(self.key.as_slice().try_into().unwrap(), &st);
                 let old = core::mem::replace(&mut self.c, fresh);
                 let orig = o.clone();
-                let io = cipher::inout::InOutBuf::new(b.as_slice(), o.as_mut_slice()).unwrap();
-                match old.try_apply_keystream_partial(io) {
+                match with_b2b(&b, &mut o, |b, o| old.try_apply_keystream_partial(cipher::inout::InOutBuf::new(b, o).unwrap())) {
                     Ok(()) => line(format!("out {}", hex(&o))),
                     Err(_) => line(if o == orig { "err".into() } else { format!("errmod {}", hex(&o)) }),
                 }
@@ -1392,12 +1421,12 @@ impl<K: CtsKind> Obj for CtsObj<K> {
             }
             ["encb", x, g] => {
                 let (Some(b), Some(mut o)) = (unhex(x), unhex(g)) else { return bad() };
-                let ok = K::enc_b2b(&self.key, &self.iv, &b, &mut o);
+                let ok = with_b2b(&b, &mut o, |b, o| K::enc_b2b(&self.key, &self.iv, b, o));
                 res(ok, &o)
             }
             ["decb", x, g] => {
                 let (Some(b), Some(mut o)) = (unhex(x), unhex(g)) else { return bad() };
-                let ok = K::dec_b2b(&self.key, &self.iv, &b, &mut o);
+                let ok = with_b2b(&b, &mut o, |b, o| K::dec_b2b(&self.key, &self.iv, b, o));
                 res(ok, &o)
             }
             ["newslice", kl, il] => {
